@@ -5,6 +5,7 @@
 From Coq Require Import String Ascii List Bool Arith NArith ZArith Sorted.
 From OV Require Import Model.LexA64 Model.ParseA64 Model.ParseFileA64 Model.SyntaxA64.
 From OV Require Import Proofs.ParseA64File Proofs.ParseA64Classify Proofs.ParseA64Round.
+From OV Require Import Proofs.ParseA64Lex Proofs.ParseA64Regs Proofs.ParseA64Ops Proofs.ParseA64Instr Proofs.ParseA64Words.
 Import ListNotations.
 Open Scope string_scope.
 
@@ -145,23 +146,88 @@ Proof.
 Qed.
 Print Assumptions roundtrip_refuted_directive_comment.
 
-(* ---------------------------------------------------------------- instances of the restricted round trip, one per operand kind
-   (the universally quantified `_partial` statement -- wline_okb false, cond_tight -- is NOT proved; the
-   correspondence harness checks it by vm_compute on every generated case) *)
+(* ---------------------------------------------------------------- THE ROUND TRIP, for all trees and all layouts
+   Sub-language (wline_okb false, Model/SyntaxA64.v), every line kind:
+     instruction  mnemonic [A-Za-z0-9.]+ not starting with '.', 0-5 operands separated by commas, optional // comment;
+       operands: scalar [xwbhsdq]N, vector/SVE [vz]N(.lanes?shape)?([idx])?, predicate pN(.lanes?shape | /z | /m)?
+       (N = 0..31, either case), sp/wsp/xsp and wzr/xzr spellings, lists {r, r, ...}[idx]? and ranges {r - r}[idx]?,
+       integers '#'? -? (decimal | 0xhex) of any size, floats '#'? -?d+.d+ ((e|E)(+|-)d+)? (f|F)?, identifiers
+       (not spelling a register/alias/condition code), condition codes (any case), memory [xN|sp (, '#'?imm | , (x|w)N (, ext ('#'?n)?)?)?]
+       followed by '!' or ', '#'?imm';
+     label  ident ':' comment?;  directive  '.'name word (, word)* comment?;  comment line.
+   EXCLUDED, visibly, by the hypotheses (each is refuted above and is a finding against the implementation):
+     noswallow_okb  - an identifier/condition code spelled with a shift-operator prefix directly after another operand (cbz x1, lsl_loop)
+     ext_words false - the extend sxtx (the implementation understands lsl, uxtw, sxtw, uxtb)
+     directive clause of wline_okb - a comment containing ',' after a parameter starting with a letter or '.'
+     cond_tight      - white space directly after a condition-code word
+   Further side conditions of wline_okb: memory operand last (order_okb), no condition code and no pld*/pst* identifier as first operand (first_okb),
+   shift amount a non-negative decimal, post-index by immediate only.
+   layout_okb: every lay_i and trail is white space (space, tab, CR); it is non-empty between two words,
+   between a word ending an exponent mantissa and '-', between '-' and a digit, between '/' and '/'. *)
+Theorem lex_render : forall lay trail ts,
+  sall is_ws trail = true -> lay_okb None lay ts = true ->
+  lex (render_toks (zip_lay lay ts) (line_trail ts trail)) = Some (mark lay (line_trail ts trail) ts).
+Proof. exact lex_render_tokens. Qed.
+Print Assumptions lex_render.
+
+Theorem parse_tokens_line : forall l, wline_okb false l = true -> parse_toks (toks_line l) = Parsed (denote l).
+Proof. exact tokens_line. Qed.
+Print Assumptions parse_tokens_line.
+
+Theorem parse_render_line_partial : forall l lay trail,
+  wline_okb false l = true -> layout_okb lay trail l = true -> cond_tight lay trail l = true ->
+  parse_line (render lay trail l) = Parsed (denote l).
+Proof. exact parse_render_partial. Qed.
+Print Assumptions parse_render_line_partial.
+
+(* the tokens of every well-formed line are lexable, so the layout hypothesis is spacing alone:
+   white space only, non-empty where two tokens would otherwise fuse (sep_okb / clash) *)
+Theorem tokens_lexable : forall l, wline_okb false l = true -> toks_okb (toks_line l) = true.
+Proof. exact toks_line_okb. Qed.
+Print Assumptions tokens_lexable.
+
+Theorem parse_render_line_spacing : forall l lay trail,
+  wline_okb false l = true -> spacing_okb lay trail l = true -> cond_tight lay trail l = true ->
+  parse_line (render lay trail l) = Parsed (denote l).
+Proof. exact parse_render_spacing. Qed.
+Print Assumptions parse_render_line_spacing.
+
+(* the instruction-line instance: mnemonic and every operand recovered *)
+Theorem parse_render_instr_partial : forall mn ops c lay trail,
+  wline_okb false (WLInstr mn ops c) = true -> layout_okb lay trail (WLInstr mn ops c) = true ->
+  cond_tight lay trail (WLInstr mn ops c) = true ->
+  parse_line (render lay trail (WLInstr mn ops c)) =
+  Parsed (mkpline (Some mn) (flat_map den_wop ops) None None (option_map comment_text c)).
+Proof. intros. apply (parse_render_partial (WLInstr mn ops c)); assumption. Qed.
+Print Assumptions parse_render_instr_partial.
+
+(* consequence named by the property: a register index with shift amount n has scale 2^n *)
+Theorem scale_is_pow2 : forall mn b p k op h n c lay trail,
+  let l := WLInstr mn [WMem b (MTIdx p k (Some (mkwext op (Some (h, n))))) c] None in
+  wline_okb false l = true -> layout_okb lay trail l = true -> cond_tight lay trail l = true ->
+  exists off bp bn ix pre post,
+    parse_line (render lay trail l) =
+    Parsed (mkpline (Some mn) [OMem off bp bn ix (Z.pow 2 (num_value n)) pre post] None None None).
+Proof.
+  intros mn b p k op h n c lay trail l H1 H2 H3. rewrite (parse_render_partial l lay trail H1 H2 H3).
+  unfold l. simpl. do 6 eexists. reflexivity.
+Qed.
+Print Assumptions scale_is_pow2.
+
+(* ---------------------------------------------------------------- non-vacuity: the hypotheses hold on one line per operand kind
+   (levels a-e of the construction; each Example applies the theorem, vm_compute only discharges its boolean hypotheses) *)
 Definition inst (l : wline) (lay : list string) (trail : string) : Prop :=
   wline_okb false l = true /\ layout_okb lay trail l = true /\ cond_tight lay trail l = true /\ roundtrip_holds l lay trail.
-Ltac inst := unfold inst, roundtrip_holds; vm_compute; repeat split; reflexivity.
+Ltac inst := unfold inst, roundtrip_holds;
+  match goal with |- _ /\ _ /\ _ /\ parse_line (render ?lay ?trail ?l) = _ =>
+    assert (H1 : wline_okb false l = true) by (vm_compute; reflexivity);
+    assert (H2 : layout_okb lay trail l = true) by (vm_compute; reflexivity);
+    assert (H3 : cond_tight lay trail l = true) by (vm_compute; reflexivity);
+    split; [exact H1 | split; [exact H2 | split; [exact H3 | exact (parse_render_line_partial l lay trail H1 H2 H3)]]] end.
 Definition sp1 (n : nat) : list string := repeat " " n.
 
+(* level a: mnemonic + scalar registers / aliases + immediates + labels *)
 Example rt_scalar_alias : inst (WLInstr "add" [WReg (RSp "SP"); WReg (RSp "wsp"); WReg (RZr "WZR"); X 30] None) (sp1 9) " ".
-Proof. inst. Qed.
-Example rt_vector_pred : inst (WLInstr "fmla" [WReg (RPlain (mkwreg "v"%char 0 (Some ("4", "s"%char))));
-                                               WReg (RPredicated (mkwreg "p"%char 1 None) "m"%char);
-                                               WReg (RIndexed (mkwreg "Z"%char 2 (Some ("", "D"%char))) "1")] None) (sp1 12) "".
-Proof. inst. Qed.
-Example rt_list_range : inst (WLInstr "ld1" [WList [mkwreg "v"%char 0 (Some ("2","d"%char)); mkwreg "v"%char 1 (Some ("2","d"%char))] (Some "1");
-                                             WRange (mkwreg "v"%char 4 (Some ("4","s"%char))) (mkwreg "v"%char 7 (Some ("4","s"%char))) None;
-                                             WMem (BX false 0) MTNone (MCPost true (mknum false false "64"))] (Some "x")) (sp1 30) "".
 Proof. inst. Qed.
 Example rt_immediates : inst (WLInstr "mov" [WInt true (mknum true true "1f"); WInt false (mknum false false "16");
                                             WFlt true (mkwfloat true "1" "25" (Some ("e"%char, "+"%char, "1")) (Some "f"%char));
@@ -170,10 +236,21 @@ Proof. inst. Qed.
 Example rt_cond_label : inst (WLInstr "b.ne" [WIdent false ".L3"] None) (sp1 2) "" /\
                         inst (WLInstr "csel" [X 0; X 1; X 2; WCond "NE"] None) [""; " "; ""; " "; ""; " "; ""; " "] "".
 Proof. split; inst. Qed.
+(* level b: vector / SVE / predicate registers *)
+Example rt_vector_pred : inst (WLInstr "fmla" [WReg (RPlain (mkwreg "v"%char 0 (Some ("4", "s"%char))));
+                                               WReg (RPredicated (mkwreg "p"%char 1 None) "m"%char);
+                                               WReg (RIndexed (mkwreg "Z"%char 2 (Some ("", "D"%char))) "1")] None) (sp1 12) "".
+Proof. inst. Qed.
+(* level c: memory operands *)
 Example rt_memory : inst (WLInstr "ldr" [X 0; WMem (BSp "sp") (MTIdx "w"%char 2 (Some (mkwext "SXTW" (Some (true, mknum false false "3"))))) MCNone] None) (sp1 13) ""
                  /\ inst (WLInstr "ldr" [X 0; WMem (BX false 1) (MTOff true (mknum true false "8")) MCPre] None) (sp1 9) ""
                  /\ inst (WLInstr "ldr" [X 0; WMem (BX true 1) (MTIdx "x"%char 2 None) MCNone] None) (sp1 9) "".
 Proof. repeat split; inst. Qed.
+(* level d: register lists and ranges (with post-index) ; level e: trailing comment *)
+Example rt_list_range : inst (WLInstr "ld1" [WList [mkwreg "v"%char 0 (Some ("2","d"%char)); mkwreg "v"%char 1 (Some ("2","d"%char))] (Some "1");
+                                             WRange (mkwreg "v"%char 4 (Some ("4","s"%char))) (mkwreg "v"%char 7 (Some ("4","s"%char))) None;
+                                             WMem (BX false 0) MTNone (MCPost true (mknum false false "64"))] (Some " x  y ")) (sp1 30) "".
+Proof. inst. Qed.
 Example rt_scale_is_pow2 :
   parse_line "ldr x0, [x1, x2, lsl #3]" =
   Parsed (mkpline (Some "ldr") [OReg (plain "x" "0"); OMem MOffNone "x" "1" (Some (mkmindex "x" "2" (Some "lsl") (Some "3"))) 8 false None] None None None).
@@ -181,3 +258,7 @@ Proof. vm_compute. reflexivity. Qed.
 Example rt_other_lines : inst (WLLabel ".L3" (Some " hi")) (sp1 3) "" /\ inst (WLDirective "p2align" ["4"; "15"] None) (sp1 4) "" /\
                          inst (WLComment " a  b") (sp1 1) "".
 Proof. repeat split; inst. Qed.
+(* the tightest and a loose layout of one line are both covered *)
+Example rt_layout_tight : inst (WLInstr "ldr" [X 0; WMem (BX false 1) (MTOff true (mknum false false "8")) MCPre] None) [""; " "] "" /\
+  render [""; " "] "" (WLInstr "ldr" [X 0; WMem (BX false 1) (MTOff true (mknum false false "8")) MCPre] None) = "ldr x0,[x1,#8]!".
+Proof. split; [inst | vm_compute; reflexivity]. Qed.
